@@ -21,11 +21,12 @@ pub struct Args {
 
 fn main() {
     let argv: Vec<String> = std::env::args().collect();
-    if argv.len() < 3 && !(argv.len() == 2 && argv[1] == "dump-stdlib") {
+    if argv.len() < 3 && !(argv.len() == 2 && (argv[1] == "dump-stdlib" || argv[1] == "c10-witness")) {
         eprintln!("usage: harness gen <Cxx> --seed S --n N --tier quick|thorough --out DIR");
         std::process::exit(2);
     }
     let cmd = argv[1].clone();
+    if cmd == "c10-witness" { out::start_watchdog(); c10::witness(); return; }
     if cmd == "dump-stdlib" { print!("{}", modgen::dump_stdlib()); return; }
     if cmd == "probe" { if argv[2] == "handles" { probes::handles(); } else { probes::run(&argv[2]); } return; }
     let mut a = Args { prop: argv[2].clone(), seed: 1, n: 300, tier: "quick".into(), out: PathBuf::from("work") };
